@@ -3,21 +3,45 @@ from ..rules import gen2, sC35
 
 ID = 'C35'
 TECHNIQUE = ('typestate/pairing dataflow over the code generator (evaluate -> dispose -> free_temps, allocate_temp -> release_temp, bracket pairs) on every normal path, class-level pairing for split protocols; '
-             'ARGS: decision table of the emitted cleanup events, extracted with the path-enumerating evaluator (sibling methods inlined through the MRO) over the complete star/starstar/kwonly domain')
+             'ARGS: decision table of the emitted cleanup events, extracted with the path-enumerating evaluator (sibling methods inlined through the MRO) over the complete star/starstar/kwonly domain; '
+             'fourth round: finite-state dataflow over the control-flow graph of C helpers (all preprocessor variants) for reference slots (INOUT); symbolic execution of the refcount macro family and of the '
+             'text PyObjectType emits on r in {NULL, object} in both CYTHON_REFNANNY configurations (REFTAB); boolean decision tables of the argument incref / decref loops on both sides of the function body '
+             '(ARGPAIR) and of the temp free lists (TEMPKEY); ordered typestate E -> D -> F confirmed on the exact decision table of the method (LIFE); concrete interpretation of the nanny\'s reference table '
+             'on the complete count partition {absent, 1, 2, 3, NULL} (NANNY)')
 DECIDES = ('G1: every sub-expression the generator evaluates is disposed of and its temporaries are freed on every normal path (or ownership is handed to generate_assignment_code / the inherited subexpression handling); '
            'G2: every temporary obtained from allocate_temp is released on every normal path or by a sibling method; '
            'G5: emission brackets (blocks, ensured GIL, free-threading lock, trace yield/resume) balance on every normal path; '
            'G7: a reference held in an unmanaged temp is released before the first error exit emitted after its last use; '
            'ARGS: for every signature class (star_arg present/absent x starstar_arg present/absent x keyword-only arguments) the cleanup block behind the argument-unpacking '
            'error label of DefNodeWrapper.generate_argument_parsing_code releases the entry of every star argument that exists, on every path (helper methods inlined), and '
-           'generate_stararg_init_code releases an entry it has marked as owned (put_var_gotref) before every later emitted `return`.')
-NOT_DECIDED = ('reference balance inside the C helpers and on error paths of the generated C other than the argument-unpacking exits (needs the running refnanny); ordering of emitted error checks relative to decrefs; '
-               'null-safety of conditional acquisitions other than the argument entries covered by C35-ARGNULL.')
+           'generate_stararg_init_code releases an entry it has marked as owned (put_var_gotref) before every later emitted `return`. '
+           'INOUT: a C helper that releases the reference held in a `PyObject **` slot (decref of *p or of a local loaded from it) stores a new value or NULL into the slot before every return. '
+           'REFTAB: CCodeWriter.put_<op> -> type.get_<op>_code -> __Pyx_<OP> agree by operation; every macro of the family __Pyx_[Py_][X]{INCREF,DECREF,GOTREF,GIVEREF,CLEAR,DECREF_SET} has the effect of its '
+           'name in both refnanny configurations (one acquire/release of the old value, routed through the nanny exactly when it is on, X variants inert on NULL, CLEAR/_SET store before they release); the '
+           'text PyObjectType.get_<op>_code returns has the effect of <op> for nanny x clear_before_decref. '
+           'LIFE: X.free_temps(code) is reached only after X was disposed of / handed over on every path since X.generate_evaluation_code(code) in the same method. '
+           'OVR: a node class overriding generate_disposal_code / free_temps handles every self.X its evaluation method evaluates explicitly. '
+           'ERRLBL: behind the error label of each C function (FuncDefNode, DefNodeWrapper, GeneratorBodyDefNode, module init function; the sub-function writer nested in ModuleNode.mod_init_subfunction is not reached) all managed temps are XDECREF\'ed. '
+           'ARGPAIR: an argument entry is incref\'ed before the function body exactly when it is decref\'ed at the exit (all flag combinations of in_closure / cf_is_reassigned / acquire_gil / memoryview). '
+           'TEMPKEY: a reused temp leaves the free set, a released temp enters it on every path, temps_in_use() lists exactly the temps not in it. '
+           'TEMPEND: ExprNode.generate_disposal_code releases an owned temp with a clearing decref and never a borrowed one; generate_post_assignment_code resets a handed-over temp without releasing it. '
+           'NANNY: refnanny Context.regref / delref keep an exact per-object count, refuse one decref too many; DECREF is gated by that verdict.')
+NOT_DECIDED = ('reference balance inside the C helpers other than the slot protocol of INOUT, and on error paths of the generated C other than the argument-unpacking exits and the function error label '
+               '(needs the running refnanny); ordering of emitted error checks relative to decrefs outside G7; '
+               'null-safety of conditional acquisitions other than the argument entries covered by C35-ARGNULL; '
+               'that a borrowed Py_None stored into an owned variable is incref\'ed (mutant closure-none-incref: the general rule would also report ScopedExprNode._generate_vars_cleanup, '
+               'whose `__Pyx_DECREF_SET(<cglobal>, Py_None)` has no INCREF and cannot be demonstrated on an interpreter with an immortal None); '
+               'which sub-expressions a node evaluates through loops over lists of nodes (LIFE/OVR see explicit self.X receivers only).')
 
 
 def run(ctx):
     # sC35.rule_args_nullsafe found generate_stararg_init_code decref_clear-ing the NULL entry of an unused **kwargs (Py_DECREF(NULL) when the *args slice fails); repaired in /repo (63b53eadb)
-    return [gen2.rule_G1(ctx), gen2.rule_G2(ctx), gen2.rule_G5(ctx), gen2.rule_G7(ctx), sC35.rule_args(ctx), sC35.rule_args_nullsafe(ctx)]
+    rules = [gen2.rule_G1(ctx), gen2.rule_G2(ctx), gen2.rule_G5(ctx), gen2.rule_G7(ctx), sC35.rule_args(ctx), sC35.rule_args_nullsafe(ctx)]
+    # fourth round
+    rules.append(sC35.rule_inout(ctx))
+    rules.append(sC35.rule_reftab(ctx))
+    rules += [sC35.rule_life(ctx), sC35.rule_ovr(ctx), sC35.rule_errlabel(ctx), sC35.rule_argpair(ctx), sC35.rule_tempkey(ctx), sC35.rule_tempend(ctx), sC35.rule_nanny(ctx)]
+    return rules
 
 
 MUTATIONS = [
@@ -29,8 +53,27 @@ MUTATIONS = [
     ('Cython/Compiler/Nodes.py', 'error-label cleanup: `if self.starstar_arg:` -> `if self.starstar_arg and self.star_arg:`', 'C35-ARGS ...:starstar_arg'),
     ('Cython/Compiler/Nodes.py', 'generate_stararg_init_code: delete `if self.starstar_arg: code.put_var_decref_clear(self.starstar_arg.entry)` before the early return', 'C35-ARGS Nodes.DefNodeWrapper.generate_stararg_init_code:starstar_arg'),
 ]
+MUTATIONS += [
+    # fourth round: every entry below is stored under /verif/mutants/C35/<name>/ and replayed by the thorough tier
+    ('Cython/Utility/TypeConversion.c', 'seed C35d / inout-float-bad: __Pyx__Py{Int,Float}_FromNumber failure exit without `*number_var = NULL`', 'C35-INOUT'),
+    ('Cython/Utility/Exceptions.c', 'inout-egmatch-stale: __Pyx_ExceptionGroupMatch drops the re-assignment of *match after Py_DECREF(*match)', 'C35-INOUT'),
+    ('Cython/Compiler/Code.py', 'put-xdecref-nonnull: put_xdecref -> type.get_decref_code', 'C35-REFTAB api:CCodeWriter.put_xdecref'),
+    ('Cython/Compiler/PyrexTypes.py', 'xdecref-clear-nullcheck / decref-clear-noreset: get_xdecref_clear_code null_check=False; clear=True no longer resets the variable', 'C35-REFTAB type:PyObjectType.*'),
+    ('Cython/Utility/ModuleSetupCode.c', 'macro-xdecref-set-nonnull / macro-clear-wrong-operand / macro-xgiveref-guard', 'C35-REFTAB macro:*'),
+    ('Cython/Compiler/Nodes.py', 'arg-exit-decref-guard / var-arg-incref-guard: one side of the argument incref/decref guards changed', 'C35-ARGPAIR'),
+    ('Cython/Compiler/Nodes.py, ModuleNode.py', 'errlabel-temps-in-use / errlabel-gen-decref / errlabel-module-dropped', 'C35-ERRLBL'),
+    ('Cython/Compiler/Code.py', 'temp-freelist-remove / temp-in-use-inverted', 'C35-TEMPKEY'),
+    ('Cython/Compiler/ExprNodes.py', 'dictitem-disposal-dropped (override without the value) / attr-assign-obj-disposal (free_temps without disposal)', 'C35-OVR / C35-LIFE'),
+    ('Cython/Compiler/ExprNodes.py', 'post-assign-no-clear / disposal-plain-decref / disposal-borrowed', 'C35-TEMPEND'),
+    ('Cython/Runtime/refnanny.pyx', 'refnanny-delref-count / refnanny-regref-noinc / refnanny-decref-unguarded', 'C35-NANNY'),
+    ('Cython/Compiler/Nodes.py', 'closure-none-incref: MISSED (see NOT_DECIDED)', '-'),
+]
 SILENT_EDITS = [
     'error-label cleanup: outer guard replaced by `if True:`; by `if not (self.star_arg is None and self.starstar_arg is None and not has_kwonly_args):` with the star release written inline',
     'error-label cleanup block extracted into a new method `_release_star_args(code)` (alias `kw = self.starstar_arg`, early `return` when absent)',
     'generate_stararg_init_code: explicit `if self.starstar_arg: put_var_decref_clear(...)` replaced by `self.generate_arg_decref(self.starstar_arg, code)`',
+    'fourth round (mutants/C35/ok-*): single-exit rewrite of __Pyx__PyInt_FromNumber that stores NULL through the result variable; put_xdecref through a local bound method; %-format instead of f-string in '
+    '_get_decref_code; De Morgan on the argument release guard; the argument incref loop extracted into a helper with regrouped tests; error-label cleanup through a local / extracted into a helper method; '
+    '__Pyx_XCLEAR / __Pyx_XDECREF with a positive NULL test and renamed local; reordered free-list updates; delref computing the remaining count first; generate_disposal_code with an early return; '
+    'disposal + free_temps called through a loop over bound methods',
 ]
